@@ -121,22 +121,32 @@ func runTestCasesForServer(
 		clientCreds = nil
 	}
 
-	// Write server request.
-	err = internal.WriteDelimitedMessage(serverProcess.stdin, &conformancev1.ServerCompatRequest{
-		Protocol:      meta.protocol,
-		HttpVersion:   meta.httpVersion,
-		UseTls:        meta.useTLS,
-		ServerCreds:   serverCreds,
-		ClientTlsCert: clientCreds.GetCert(),
-		// We always set this. If server-under-test does not support it, we just
-		// won't run the test cases that verify that it's enforced.
-		MessageReceiveLimit: serverReceiveLimit,
-	})
-	if err != nil {
-		results.failedToStart(testCases, fmt.Errorf("error writing server request: %w", err))
-		return
+	// Write server request. The write blocks until the server process consumes
+	// it, which may never happen (for example if the process printed something
+	// and exited without reading its stdin), so it is bounded by a timeout.
+	writeResult := make(chan error, 1)
+	go func() {
+		err := internal.WriteDelimitedMessage(serverProcess.stdin, &conformancev1.ServerCompatRequest{
+			Protocol:      meta.protocol,
+			HttpVersion:   meta.httpVersion,
+			UseTls:        meta.useTLS,
+			ServerCreds:   serverCreds,
+			ClientTlsCert: clientCreds.GetCert(),
+			// We always set this. If server-under-test does not support it, we just
+			// won't run the test cases that verify that it's enforced.
+			MessageReceiveLimit: serverReceiveLimit,
+		})
+		if err == nil {
+			err = serverProcess.stdin.Close()
+		}
+		writeResult <- err
+	}()
+	select {
+	case err = <-writeResult:
+	case <-time.After(serverResponseTimeout):
+		err = fmt.Errorf("timed out after %v", serverResponseTimeout)
 	}
-	if err := serverProcess.stdin.Close(); err != nil {
+	if err != nil {
 		results.failedToStart(testCases, fmt.Errorf("error writing server request: %w", err))
 		return
 	}
